@@ -76,7 +76,6 @@ C09_SIZE_EXCEPTIONS = {
 C16_FOCUS_EXEMPT = {}  # __iadd__ used to be exempt; it has to go through extend() so that the validate callback sees the new items
 # C16.2 early returns without a list call, and overrides that compute the focus after the call.
 C16_ORDER_AFTER = {
-    "sort:return None": "sort() of an empty list has nothing to do and returns before touching the list (no modified callback, no change)",
     "computed_after": ("reverse", "sort"),  # the new index depends on the resulting order: read _focus/value before, store after
 }
 
